@@ -30,7 +30,15 @@ pub struct Trace {
 }
 
 pub fn run_impl(reg: &dyn Registry, readings: &[u64], ops: &[Op]) -> Trace {
+    run_impl_pool(reg, readings, ops, None)
+}
+
+/// ... with the pool set through the hook before the first operation
+pub fn run_impl_pool(reg: &dyn Registry, readings: &[u64], ops: &[Op], pool: Option<u64>) -> Trace {
     let (mut g, script) = jitter_env::jitter_with(reg, readings.to_vec(), None);
+    if let Some(p) = pool {
+        g.jitter().unwrap().set_pool(p);
+    }
     let mut steps = Vec::new();
     for op in ops {
         let o = apply(&mut g, op);
@@ -45,7 +53,14 @@ pub fn run_impl(reg: &dyn Registry, readings: &[u64], ops: &[Op]) -> Trace {
 }
 
 pub fn run_model(readings: &[u64], ops: &[Op]) -> Trace {
+    run_model_pool(readings, ops, None)
+}
+
+pub fn run_model_pool(readings: &[u64], ops: &[Op], pool: Option<u64>) -> Trace {
     let mut m = Model::new();
+    if let Some(p) = pool {
+        m.pool = p;
+    }
     let mut rd = Readings::new(readings, 0);
     let mut steps = Vec::new();
     for op in ops {
@@ -77,8 +92,13 @@ pub fn run_model(readings: &[u64], ops: &[Op]) -> Trace {
 
 /// Compare one execution; on Horizon the pool is not compared (the call did not return).
 pub fn compare(ctx: &Ctx, reg: &dyn Registry, prop: &str, readings: &[u64], ops: &[Op], devs: &[(usize, Dev)], stats: &mut Local) {
-    let a = run_impl(reg, readings, ops);
-    let b = run_model(readings, ops);
+    compare_pool(ctx, reg, prop, readings, ops, devs, stats, None)
+}
+
+#[allow(clippy::too_many_arguments)]
+pub fn compare_pool(ctx: &Ctx, reg: &dyn Registry, prop: &str, readings: &[u64], ops: &[Op], devs: &[(usize, Dev)], stats: &mut Local, pool: Option<u64>) {
+    let a = run_impl_pool(reg, readings, ops, pool);
+    let b = run_model_pool(readings, ops, pool);
     stats.executions += 1;
     stats.transitions += a.steps.len() as u64;
     let horizon = matches!(a.steps.last(), Some((Obs::Horizon, _)));
@@ -113,7 +133,7 @@ pub fn compare(ctx: &Ctx, reg: &dyn Registry, prop: &str, readings: &[u64], ops:
         ctx.violation(
             &format!("{}:jitter:{}:{}", prop, kind, ops.get(i.unwrap_or(0)).map(|o| o.short()).unwrap_or_default()),
             &what,
-            json!({"kind":"jitter","ops":ops_json(ops),"readings":readings,"deviations":format!("{:?}",devs),"impl":a.steps.iter().map(|s| json!([s.0.to_json(), s.1])).collect::<Vec<_>>(),"model":b.steps.iter().map(|s| json!([s.0.to_json(), s.1])).collect::<Vec<_>>()}),
+            json!({"kind":"jitter","ops":ops_json(ops),"readings":readings,"init_pool":pool.map(|p| p.to_string()),"deviations":format!("{:?}",devs),"impl":a.steps.iter().map(|s| json!([s.0.to_json(), s.1])).collect::<Vec<_>>(),"model":b.steps.iter().map(|s| json!([s.0.to_json(), s.1])).collect::<Vec<_>>()}),
         );
     }
     if b.steps.len() == ops.len() && !horizon {
@@ -133,7 +153,8 @@ pub struct Local {
 
 pub fn run(reg: &dyn Registry, ctx: &Ctx) -> Outcome {
     let thorough = ctx.tier == Tier::Thorough;
-    let depth = ctx.tier.pick(3, 4);
+    // (the second, assertion-free build of the harness runs a lighter pass)
+    let depth = if std::env::var("VERIF_LIGHT").is_ok() { 2 } else { ctx.tier.pick(3, 4) };
     ctx.assume("reference model of the documented procedure (reading schedule, 32-bit sign-extended delta, LFSR taps, stuck test on wrapping differences, rotate 7, stir) in refmodels::jitter");
     ctx.assume("the stuck test uses wrapping 32-bit differences (what release builds computed before fix 8a4c6ed and all builds compute after it)");
     let alphabet = vec![Op::U32, Op::U64, Op::Fill(0), Op::Fill(1), Op::Fill(4), Op::Fill(5), Op::Fill(8), Op::Fill(9), Op::TimerStats(false), Op::TimerStats(true), Op::SetRounds(1), Op::SetRounds(2), Op::SetRounds(3)];
@@ -166,7 +187,7 @@ pub fn run(reg: &dyn Registry, ctx: &Ctx) -> Outcome {
                 }
             }
             // two deviations for short histories
-            if h.len() <= if thorough { 3 } else { 2 } {
+            if std::env::var("VERIF_LIGHT").is_err() && h.len() <= if thorough { 3 } else { 2 } {
                 for p1 in 0..need {
                     for p2 in p1 + 1..(p1 + 7).min(need + 3) {
                         for &k1 in &[Dev::Repeat3, Dev::SameDelta, Dev::BackOne, Dev::Jump31] {
@@ -200,12 +221,15 @@ pub fn run(reg: &dyn Registry, ctx: &Ctx) -> Outcome {
         let kinds = [Dev::Repeat3, Dev::SameDelta, Dev::Arith, Dev::SameDeltaSkip, Dev::Jump31, Dev::BackFar, Dev::BackOne];
         let mut lens: Vec<usize> = (1..=10).collect();
         let mut p = 16usize;
-        while p <= if thorough { 16384 } else { 4096 } {
+        let light = std::env::var("VERIF_LIGHT").is_ok();
+        while p <= if thorough { 16384 } else if light { 256 } else { 4096 } {
             lens.extend([p - 1, p, p + 1]);
             p *= 2;
         }
         // 16-bit retry counters
-        lens.extend([65535, 65536, 65537]);
+        if !light {
+            lens.extend([65535, 65536, 65537]);
+        }
         // (rounds, collection index in which the run starts, measurement offset, k, kind a, kind b)
         let mut jobs2: Vec<(u8, usize, usize, usize, Dev, Dev)> = Vec::new();
         for rounds in [1u8, 2, 3] {
@@ -271,7 +295,7 @@ pub fn run(reg: &dyn Registry, ctx: &Ctx) -> Outcome {
     }
     // a long life of one object: 2^16 + 8 collections (per-object counters), mixed calls
     {
-        let n = (1usize << 16) + 8;
+        let n = if std::env::var("VERIF_LIGHT").is_ok() { (1usize << 10) + 8 } else { (1usize << 16) + 8 };
         let rd = jitter_env::raw_readings(ctx.seed ^ 0x1216, n * jitter_env::readings_per_word(1) + 64);
         let mut ops = vec![Op::SetRounds(1)];
         for i in 0..n {
@@ -333,6 +357,117 @@ pub fn run(reg: &dyn Registry, ctx: &Ctx) -> Outcome {
         }
         ctx.add("test_timer_executions", positions.len() as u64 * kinds.len() as u64 + 1);
         ctx.add("states", 1);
+    }
+    // time stamps that return to earlier values: every sequence of up to four probe deltas over
+    // {-2b, -b, 0, +b, +2b} (so that stamps coincide with the collection's first stamp, with each other,
+    // run backwards and forwards), b small and large, at the start of the first collection
+    {
+        let mut n = 0u64;
+        for b in [7i64, 1 << 20] {
+            let alpha = [-2 * b, -b, 0, b, 2 * b];
+            for rounds in if std::env::var("VERIF_LIGHT").is_ok() { vec![1u8] } else { vec![1u8, 2, 64] } {
+                for code in 0..625usize {
+                    let ds: Vec<i64> = (0..4).map(|k| alpha[(code / 5usize.pow(k)) % 5]).collect();
+                    // readings: [first stamp] then per measurement [lc][stamp][lc]; after the scripted deltas the
+                    // timer continues with irregular increments
+                    let tail = jitter_env::raw_readings(ctx.seed ^ 0x12E0 ^ code as u64, 3 * (rounds as usize + 8) + 40);
+                    let mut r: Vec<u64> = Vec::new();
+                    let mut t: u64 = 5_000_000;
+                    r.push(t);
+                    for &d in &ds {
+                        t = t.wrapping_add(d as u64);
+                        r.push(t.wrapping_add(1));
+                        r.push(t);
+                        r.push(t.wrapping_add(2));
+                    }
+                    let off = t.wrapping_sub(tail[0]).wrapping_add(1000);
+                    r.extend(tail.iter().map(|x| x.wrapping_add(off)));
+                    let ops = vec![Op::SetRounds(rounds), Op::U64, Op::U32];
+                    compare(ctx, reg, "C12", &r, &ops, &[], &mut tot);
+                    n += 1;
+                }
+            }
+        }
+        ctx.add("returning_stamp_scripts", n);
+        ctx.add("states", n);
+    }
+    // pool coincidences: start pools (hook) for which a fold leaves the pool unchanged at the first,
+    // second or third measurement, for which a whole collection maps the pool onto itself, or for which
+    // the second collected word repeats the first - solved on the reference model, which is affine in
+    // the pool
+    {
+        use refmodels::gf2::{BitVec, Mat};
+        let solve = |g: &dyn Fn(u64) -> u64| -> Option<u64> {
+            let c = g(0);
+            let col: Vec<BitVec> = (0..64).map(|i| BitVec { n: 64, w: vec![g(1u64 << i) ^ c] }).collect();
+            let m = Mat { rows: 64, cols: 64, col };
+            m.solve(&BitVec { n: 64, w: vec![c] }).map(|x| x.w[0])
+        };
+        let mut n = 0u64;
+        for rounds in [1u8, 2, 3] {
+            let rd = jitter_env::raw_readings(ctx.seed ^ 0x12F0 ^ rounds as u64, 200);
+            let per = jitter_env::readings_per_word(rounds);
+            let mut pools: Vec<(String, u64)> = Vec::new();
+            // pool after the first k measurements (model), and the fold of the next delta
+            for k in 0..3usize.min(rounds as usize + 1) {
+                let g = |p: u64| -> u64 {
+                    // model: pool before measurement k and after folding it (without the rotation)
+                    let mut pool = p;
+                    let mut prev = rd[0];
+                    let mut out = 0u64;
+                    for j in 0..=k {
+                        let tstamp = rd[2 + 3 * j];
+                        let delta = tstamp.wrapping_sub(prev) as i64 as i32;
+                        prev = tstamp;
+                        let folded = refmodels::jitter::lfsr(pool, delta as i64 as u64);
+                        if j == k {
+                            out = folded ^ pool;
+                        }
+                        pool = folded.rotate_left(7);
+                    }
+                    out
+                };
+                if let Some(p) = solve(&g) {
+                    pools.push((format!("fold at measurement {} leaves the pool unchanged", k), p));
+                }
+            }
+            {
+                let g = |p: u64| -> u64 {
+                    let mut m = Model::new();
+                    m.pool = p;
+                    m.set_rounds(rounds);
+                    let mut r = Readings::new(&rd, 0);
+                    m.next_u64(&mut r).unwrap_or(0) ^ p
+                };
+                if let Some(p) = solve(&g) {
+                    pools.push(("collection maps the pool onto itself".into(), p));
+                }
+                let g2 = |p: u64| -> u64 {
+                    let mut m = Model::new();
+                    m.pool = p;
+                    m.set_rounds(rounds);
+                    let mut r = Readings::new(&rd, 0);
+                    let a = m.next_u64(&mut r).unwrap_or(0);
+                    let b = m.next_u64(&mut r).unwrap_or(0);
+                    a ^ b
+                };
+                if let Some(p) = solve(&g2) {
+                    pools.push(("second collected word repeats the first".into(), p));
+                }
+            }
+            let _ = per;
+            for (_what, p) in pools {
+                for ops in [vec![Op::SetRounds(rounds), Op::U64, Op::U64, Op::U32], vec![Op::SetRounds(rounds), Op::U32, Op::U32, Op::U64]] {
+                    compare_pool(ctx, reg, "C12", &rd, &ops, &[], &mut tot, Some(p));
+                    n += 1;
+                }
+            }
+        }
+        ctx.add("pool_coincidence_starts", n);
+        ctx.add("states", n);
+        if n == 0 {
+            ctx.machinery("no pool-coincidence start could be solved on the reference model");
+        }
     }
     // test_timer in the middle of a stream (a half pending across it; twice in a row; after set_rounds)
     {
